@@ -203,7 +203,7 @@ def main():
     if seed is None:
         seed = int(os.environ.get("VERIF_SEED", "1") or "1")
     tier = args.tier if args.tier in ("quick", "thorough") else "quick"
-    work = os.path.join(VERIF, "work", args.prop)
+    work = os.path.join(VERIF, "work", args.prop + os.environ.get("VERIF_WORK_SUFFIX", ""))
     t_start = time.time()
     binp, build_s, inst_log = build(cfg, work)
 
